@@ -16,7 +16,7 @@ Open Scope bool_scope.
 
 Record vhdr := mkVH {
   v_id : N; v_xid : N; v_num : N; v_ptd : N; v_bd : N; v_ct : N;
-  v_ep : epoch; v_parent : N; v_root_ok : bool; v_pow_ok : bool
+  v_ep : epoch; v_parent : N; v_rend : N; v_root_ok : bool; v_pow_ok : bool
 }.
 
 Definition mh (h : vhdr) : mhdr := mkMH (v_num h) (v_ptd h) (v_bd h).
